@@ -184,6 +184,11 @@ def m_vec_index(ex, a, t):
     vec = target(a[0]); i = conc(ex, a[1])
     if i >= len(vec.items): raise Panic('index out of bounds')
     return Ref(LCell(vec.items[i]))
+def m_slice_get(ex, a, t):
+    # <[T]>::get(idx) -> Option<&T>
+    vec = target(a[0]); i = conc(ex, a[1])
+    if i >= len(vec.items): return Enum('Option', 'None')
+    return Enum('Option', 'Some', [Ref(LCell(vec.items[i]))])
 def m_vec_swap_remove(ex, a, t):
     vec = target(a[0]); i = conc(ex, a[1])
     if i >= len(vec.items): raise Panic('swap_remove index')
@@ -208,7 +213,7 @@ def m_map_err(ex, a, t):
     if len(f) != 1: raise Unknown('closure ' + clo.ty)
     return Enum('Result', 'Err', [ex.run(f[0], [clo, r.f[0].v])])
 MODELS += [
-    (r'(?:^|::)Vec::<.*>::len$', m_vec_len), (r'(?:^|::)Vec::<.*>::is_empty$', m_vec_is_empty), (r'(?:^|::)Vec::<.*>::push$', m_vec_push),
+    (r'core::slice::<impl \[.*\]>::get::<usize>$', m_slice_get), (r'(?:^|::)Vec::<.*>::len$', m_vec_len), (r'(?:^|::)Vec::<.*>::is_empty$', m_vec_is_empty), (r'(?:^|::)Vec::<.*>::push$', m_vec_push),
     (r'^<Vec<.*> as Index<usize>>::index$', m_vec_index), (r'(?:^|::)Vec::<.*>::swap_remove$', m_vec_swap_remove),
     (r'(?:^|::)UnboundedSender::<.*>::send$', m_tx_send), (r'(?:^|::)Result::<.*>::map_err::<', m_map_err),
 ]
